@@ -109,6 +109,7 @@ fn gen_subtable(rng: &mut Rng, format: u16, max_gid: u16) -> GenSub {
             if rng.chance(1, 3) {
                 l.deltas.insert(0, max_gid.wrapping_add(1 + rng.below(1000) as u16));
             }
+            l.trim0 = rng.bool();
             let exp: Map = l.expected().into_iter().filter(|(_, g)| *g != 0).collect();
             GenSub { format, bytes: l.write(0), expected: exp, max_code: 0xFFFF, desc: format!("fmt2 leads={}", l.double.len()), valid2: Some(l) }
         }
